@@ -1,5 +1,6 @@
 pub mod checks;
 pub mod choice;
+pub mod e3;
 pub mod exec;
 pub mod net;
 pub mod obs;
